@@ -167,6 +167,23 @@ def validate0_case(ctx, frame, newcrc):
         ctx.violation("validate0-crc-influence", f"validate=0: result depends on CRC bytes {frame[-3:].hex()} vs "
                       f"{newcrc.hex()}: {a[0:2]} vs {b[0:2]}", params)
         return
+    # the same with a header that does not describe the buffer (length field over- / understated, reserved bits set):
+    # whatever the parser makes of such a buffer with validation off, the checksum bytes must not change it
+    ln = len(frame) - 6
+    k = (frame[-1] + ln) % 5
+    newlen = (ln + 1, ln + 3, max(0, ln - 2), ln | 0x400, ln)[k]
+    hdr = bytes([0xD3 if k != 4 else 0xD2, (newlen >> 8) & 0xFF, newlen & 0xFF])
+    try:
+        a2 = outcome(hdr + frame[3:])
+        b2 = outcome(hdr + alt[3:])
+    except Exception as e:
+        ctx.violation("validate0-foreign", f"header {hdr.hex()}: {type(e).__name__}: {e}", dict(params, hdr=hdr.hex()))
+        return
+    ctx.hit("validate0_odd_header_checked")
+    if a2 != b2:
+        ctx.violation("validate0-crc-influence", f"validate=0, header {hdr.hex()} on a {ln}-byte payload: result depends "
+                      f"on the CRC bytes {frame[-3:].hex()} vs {newcrc.hex()}: {a2[0:2]} vs {b2[0:2]}", params)
+        return
     ctx.case(alt + b"v0", True)
 
 
